@@ -55,6 +55,23 @@ def ckI32 (x : Int) : Option Int := if -2147483648 ≤ x ∧ x ≤ 2147483647 th
 def ckI16 (x : Int) : Option Int := if -32768 ≤ x ∧ x ≤ 32767 then some x else none
 def ckI8 (x : Int) : Option Int := if -128 ≤ x ∧ x ≤ 127 then some x else none
 
+/-- `two_powi(exp as i8 - bias)` (util.rs:56) for a small non-negative `exp`: the `i8` subtraction at the call site
+(formats.rs: `two_powi(exp as i8 - 25)` …), `debug_assert!(-126 <= exponent)`, `(exponent as i32) + 127` and the
+`u32` shift `<< 23`.  Only the checks; the value is computed by the float models. -/
+def twoPowiT (exp : Nat) (bias : Int) : Option Unit :=
+  match ckI8 ((exp : Int) - bias) with
+  | none => none
+  | some e =>
+    match dbgP (-126 ≤ e) with
+    | none => none
+    | some _ =>
+      match ckI32 (e + 127) with
+      | none => none
+      | some s =>
+        match shl 32 4294967296 s.toNat 23 with
+        | none => none
+        | some _ => some ()
+
 theorem ck_of_lt {bound x : Nat} (h : x < bound) : ck bound x = some x := if_pos h
 theorem subU_of_le {a b : Nat} (h : b ≤ a) : subU a b = some (a - b) := if_pos h
 theorem shl_of_lt {width bound x s : Nat} (h : s < width) : shl width bound x s = some ((x <<< s) % bound) :=
@@ -78,6 +95,17 @@ theorem mapT_eq_some {α β} (f : α → Option β) (g : α → β) (l : List α
 theorem ckI32_of_range {x : Int} (h : -2147483648 ≤ x ∧ x ≤ 2147483647) : ckI32 x = some x := if_pos h
 theorem ckI16_of_range {x : Int} (h : -32768 ≤ x ∧ x ≤ 32767) : ckI16 x = some x := if_pos h
 theorem ckI8_of_range {x : Int} (h : -128 ≤ x ∧ x ≤ 127) : ckI8 x = some x := if_pos h
+
+theorem twoPowiT_of {exp : Nat} {bias : Int} (h : -126 ≤ (exp : Int) - bias ∧ (exp : Int) - bias ≤ 127) :
+    twoPowiT exp bias = some () := by
+  unfold twoPowiT
+  rw [ckI8_of_range (by omega)]
+  simp only []
+  rw [dbgP_of h.1]
+  simp only []
+  rw [ckI32_of_range (by omega)]
+  simp only []
+  rw [shl_of_lt (by omega)]
 
 /-! Sequencing lemmas with NON-definitional proofs.  `Option.bind_some` is a `rfl` lemma: `simp` then rewrites
 definitionally and leaves the kernel to re-check `(some a).bind f ≡ f a` by unfolding, and the kernel's
